@@ -489,7 +489,7 @@ func c15GenConc(rng *rand.Rand, tier string, emit func(string)) {
 	g := &c15Gen{rng}
 	ncase, lmin, lmax, mmin, mmax, nq, nix, gor, rounds := 4, 100, 180, 20, 30, 8, 6, 8, 3
 	if tier == "thorough" {
-		ncase, lmin, lmax, mmin, mmax, nq, nix, gor, rounds = 3, 150, 320, 30, 50, 10, 8, 16, 4
+		ncase, lmin, lmax, mmin, mmax, nq, nix, gor, rounds = 3, 150, 260, 28, 40, 10, 8, 16, 4
 	}
 	for c := 0; c < ncase; c++ {
 		base := g.word(lmin+rng.Intn(lmax-lmin+1), "acgt")
